@@ -11,7 +11,9 @@ Tree representation (nested tuples, hashable):
    ("if", e, s) ("ife", e, s, s) ("while", e, s) ("do", s, e)
    ("for", v, e|None, s)       v: 0 for(;e;)  1 for(T;e;T)  2 for(int i=T;e;T)   e None = no condition
    ("blk", s, s[, s])          compound statement
-   ("lab", s)                  Lj: s
+   ("lab", s[, name])          Lj: s    with a name the label is spelled `name` instead of Lj everywhere (goto, &&name); the
+                               interpreter still identifies it by its index j, so the NAME only matters to the compiler
+   ("X",)                      gsink = *gnull;   a statement that traps whenever it is executed (dead code must stay dead)
    ("sw", e, shape, (s,..))    switch (e) { shape[i]: s_i ... }   shape[i] in 0,1,2 (case value) or "d" (default)
    ("V", e)                    V(e);  records the value of e
    ("swd", e, s)               switch (e) s     the body is ANY statement; its case labels are ("case", ..) nodes at any depth
@@ -22,6 +24,11 @@ Tree representation (nested tuples, hashable):
    typed tape bits (one tape bit b each, event 1000+b; the operand type decides how its truth value has to be tested):
    ("Cc",) char b ? -128 : 0        ("Cl",) long b ? 0x300000000 : 0 (only high bits set)   ("Cf",) float b ? 0.25f : 0
    ("Cd",) double b ? 0.5 : -0.0    ("Cld",) long double b ? 0.5L : 0    ("Cp",) void * b ? (void *)0x700000000 : 0
+   trapping operands (no call, no event: evaluating one is observable ONLY by the trap it raises; valid when the tape bit
+   read LAST equals the polarity p, otherwise the run is undefined and not judged):
+   ("Dp1",) ("Dp0",) *gp<p>   null pointer unless valid, value p        ("Dx1",) ("Dx0",) ga[gi<p>]   index into an unmapped
+   page unless valid, value p      ("Dv1",) ("Dv0",) (6 / gd<p>)   run-time zero divisor unless valid, value 2 resp. 1
+   pure operands that never trap: ("K",) 7   ("G",) gz (a global, 0)   ("Sz",) (int)sizeof(ga[gbad])  (4, operand unevaluated)
    Expressions are statically typed (etype): ?: and a ?: b need two arithmetic or two pointer operands, a switch
    selector an integer type; V() of a pointer is written V((long)e).
    ("and",a,b) ("or",a,b) ("cond",a,b,c) ("elvis",a,b) ("comma",a,b) ("not",a) ("se", s|None, e)   ({ s e; })
@@ -39,13 +46,20 @@ def table_file(progs_meta, rows):
     """binary table read by harness/c03_tree_driver.c: header (nprogs, nnodes), per program (root, L), node records"""
     return struct.pack("<ii", len(progs_meta), len(rows)) + b"".join(struct.pack("<ii", r, L) for r, L in progs_meta) + b"".join(rows)
 
-STMT_LEAVES = ("T", "E", "brk", "cont", "ret", "goto", "cgoto")
+STMT_LEAVES = ("T", "E", "brk", "cont", "ret", "goto", "cgoto", "X")
 TYPED_LEAVES = ("Cc", "Cl", "Cf", "Cd", "Cld", "Cp")
 LEAF_TYPE = {"C": "int", "C2": "int", "Te": "int", "Ze": "int", "Cc": "char", "Cl": "long", "Cf": "float", "Cd": "double",
              "Cld": "ldouble", "Cp": "ptr"}
 LEAF_DECL = ("char Cc(void); long Cl(void); float Cf(void); double Cd(void); long double Cld(void); void *Cp(void);")
 RANK = {"char": 0, "int": 1, "long": 2, "float": 3, "double": 4, "ldouble": 5}
-EXPR_LEAVES = ("C", "C2", "Te", "Ze") + TYPED_LEAVES
+# trapping operands: C text, value when valid, polarity (valid iff the last tape bit read == polarity; None = always valid)
+TRAP_TEXT = {"Dp1": ("(*gp1)", 1, 1), "Dp0": ("(*gp0)", 0, 0), "Dx1": ("ga[gi1]", 1, 1), "Dx0": ("ga[gi0]", 0, 0),
+             "Dv1": ("(6 / gd1)", 2, 1), "Dv0": ("(6 / gd0)", 1, 0),
+             "K": ("7", 7, None), "G": ("gz", 0, None), "Sz": ("(int)sizeof(ga[gbad])", 4, None)}
+TRAP_LEAVES = tuple(TRAP_TEXT)
+TRAP_DECL = "extern int *gp1, *gp0, *ga, *gnull; extern int gi1, gi0, gd1, gd0, gz, gbad, gsink;"
+for _k in TRAP_LEAVES: LEAF_TYPE[_k] = "int"
+EXPR_LEAVES = ("C", "C2", "Te", "Ze") + TYPED_LEAVES + TRAP_LEAVES
 EXPR_KINDS = EXPR_LEAVES + ("and", "or", "cond", "elvis", "comma", "not", "se")
 
 SWITCH_SHAPES = [(0,), ("d",), (0, 1), ("d", 0), (0, "d"), (0, 1, 2), ("d", 0, 1), (0, "d", 1), (0, 1, "d")]
@@ -97,7 +111,8 @@ def _splits(n, k):
 
 
 class Gen:
-    """alphabet keys: empty ret goto cgoto label (leaves / labelled statements), for (tuple of for variants), fornocond, blk3,
+    """alphabet keys: trapstmt (statement that traps when executed), trapleaves (tuple of trapping / pure operands, free),
+    empty ret goto cgoto label (leaves / labelled statements), for (tuple of for variants), fornocond, blk3,
     switch (list of shapes), exprs (set of expression composites), exprleaves (T/Z operands), tleaves (tuple of typed tape
     bits), tfree (typed tape bits cost nothing), swd (switch with a free-form body and case labels at any depth),
     noloops / noblk (drop while/do/for resp. compound statements)"""
@@ -132,6 +147,7 @@ class Gen:
             if "ret" in al: out.append(("ret",))
             if "goto" in al: out.append(("goto", None))
             if "cgoto" in al: out.append(("cgoto",))
+            if "trapstmt" in al: out.append(("X",))
         m = n - 1
         ectx = (brk, cont, False, False)    # expression evaluated as part of a non-loop statement
         lctx = (False, False, False, False) # loop / switch controlling expression: break/continue not generated there
@@ -196,6 +212,8 @@ class Gen:
             out = [("C2",)] if sel else [("C",)]
             if "tfree" in al:
                 out += [(k,) for k in tl if not sel or LEAF_TYPE[k] in INT]
+            if not sel:
+                out += [(k,) for k in al.get("trapleaves", ())]      # trapping / pure operands cost nothing, like C()
             return out
         out = []
         if n == 1 and "exprleaves" in al:
@@ -394,7 +412,7 @@ def valid(t):
 def _valid(t, brk, cont, lab, nl, cs=None):
     """cs: the set of case labels already used by the innermost enclosing free-form switch (None: not inside one)"""
     k = t[0]
-    if k in ("T", "E", "ret") or k in LEAF_TYPE:
+    if k in ("T", "E", "ret", "X") or k in LEAF_TYPE:
         return
     if is_expr(t):
         etype(t)                    # raises ValueError on a constraint violation
@@ -450,6 +468,71 @@ def _valid(t, brk, cont, lab, nl, cs=None):
         raise ValueError(k)
 
 
+# ---- label names ---------------------------------------------------------------------
+# The label name space as an enumeration dimension: names that are prefixes / suffixes / case variants of each other and
+# names that differ only in their 63rd (last significant, C11 5.2.4.1) character.
+_LONG = "M" + "_123456789" * 6 + "_"          # 62 characters
+LABEL_NAMES_CORE = ("L", "L1", "L10", "l1")
+LABEL_NAMES = LABEL_NAMES_CORE + ("XL1", _LONG + "a", _LONG + "b")
+
+
+def label_names(t):
+    """names of the labelled statements in textual order (None = default Lj)"""
+    out = []
+    def walk(x):
+        if x[0] == "lab":
+            out.append(x[2] if len(x) > 2 else None)
+        for c in _kids(x):
+            walk(c)
+    walk(t)
+    return out
+
+
+def name_labels(t, names):
+    """the tree with its labelled statements named names[0], names[1].. in textual order (None: all names removed)"""
+    it = iter(names) if names is not None else None
+    def walk(x):
+        if x[0] == "lab":
+            nm = next(it) if it is not None else None       # pre-order = textual order: the label precedes its statement
+            body = walk(x[1])
+            return ("lab", body, nm) if nm else ("lab", body)
+        out = [x[0]]
+        for c in x[1:]:
+            if isinstance(c, tuple) and c and isinstance(c[0], str) and c[0] != "d":
+                out.append(walk(c))
+            elif isinstance(c, tuple) and c and isinstance(c[0], tuple):
+                out.append(tuple(walk(y) for y in c))
+            else:
+                out.append(c)
+        return tuple(out)
+    return walk(t)
+
+
+def name_relations(names):
+    """relations between the spellings of the labels i < j (textual order), for signatures"""
+    rel = []
+    nm = [n or "L%d" % (j + 1) for j, n in enumerate(names)]
+    for i in range(len(nm)):
+        for j in range(i + 1, len(nm)):
+            a, b = nm[i], nm[j]
+            if a == b: continue
+            if b.startswith(a): rel.append("L%d=prefix-of-L%d" % (i + 1, j + 1))
+            elif a.startswith(b): rel.append("L%d=prefix-of-L%d" % (j + 1, i + 1))
+            elif len(a) > 32 and a[:32] == b[:32]: rel.append("L%d=long-common-prefix-L%d" % (i + 1, j + 1))
+            if b.endswith(a): rel.append("L%d=suffix-of-L%d" % (i + 1, j + 1))
+            elif a.endswith(b): rel.append("L%d=suffix-of-L%d" % (j + 1, i + 1))
+            if a.lower() == b.lower(): rel.append("L%d=case-variant-of-L%d" % (i + 1, j + 1))
+    return ",".join(rel) or "unrelated"
+
+
+def name_tuples(nl, wide):
+    """every ordered selection of nl distinct names: definition order = textual order, so each related pair occurs in both
+    orders.  wide: all 7 names for 2 (and 3) labels, else the 4 core names"""
+    if nl < 2 or nl > 4: return []
+    pool = LABEL_NAMES if wide and nl <= (3 if wide > 1 else 2) else LABEL_NAMES_CORE
+    return list(itertools.permutations(pool, nl))
+
+
 # ---- C text and interpreter table -------------------------------------------------
 class Emit:
     """One pass assigns marker numbers and label numbers in textual order and produces both the C text and the
@@ -457,13 +540,14 @@ class Emit:
     K = dict(S_EXPR=1, S_V=2, S_EMPTY=3, S_BREAK=4, S_CONT=5, S_RET=6, S_GOTO=7, S_CGOTO=8, S_IF=9, S_WHILE=10, S_DO=11,
              S_FOR=12, S_BLOCK=13, S_LABEL=14, S_SWITCH=15, S_CASE=16,
              E_C=32, E_C2=33, E_T=34, E_Z=35, E_AND=36, E_OR=37, E_COND=38, E_ELVIS=39, E_COMMA=40, E_NOT=41, E_STMT=42,
-             E_CC=43, E_CL=44, E_CF=45, E_CD=46, E_CLD=47, E_CP=48)
+             E_CC=43, E_CL=44, E_CF=45, E_CD=46, E_CLD=47, E_CP=48, E_TRAP=49, S_TRAP=17)
 
     def __init__(self, tree, rows=None):
         self.rows = rows if rows is not None else []
         self.mark = 0
         self.label = 0
         self.nlabels = count_labels(tree)
+        self.names = [nm or "L%d" % (j + 1) for j, nm in enumerate(label_names(tree))]
         self.pseudo = self.nlabels      # case labels get ids after the real labels
         self.uses_tab = False
         self.text, self.root, _ = self.stmt(tree)
@@ -489,7 +573,8 @@ class Emit:
         if k == "brk": return "break;", self.node("S_BREAK"), 0
         if k == "cont": return "continue;", self.node("S_CONT"), 0
         if k == "ret": return "return;", self.node("S_RET"), 0
-        if k == "goto": return "goto L%d;" % t[1], self.node("S_GOTO", t[1]), 0
+        if k == "X": return "gsink = *gnull;", self.node("S_TRAP"), 0
+        if k == "goto": return "goto %s;" % self.names[t[1] - 1], self.node("S_GOTO", t[1]), 0
         if k == "cgoto":
             self.uses_tab = True
             return "goto *tab[SEL(%d)];" % self.nlabels, self.node("S_CGOTO", self.nlabels), 0
@@ -544,7 +629,7 @@ class Emit:
             j = self.label
             st, sn, sm = self.stmt(t[1])
             mask = sm | (1 << j)
-            return "L%d: %s" % (j, st), self.node("S_LABEL", j, c=[sn], lab=mask), mask
+            return "%s: %s" % (self.names[j - 1], st), self.node("S_LABEL", j, c=[sn], lab=mask), mask
         if k == "sw":
             et, en = self.expr(t[1])
             texts, nodes, mask = [], [], 0
@@ -570,6 +655,9 @@ class Emit:
             n = self.m(); return "Z(%d)" % n, self.node("E_Z", n)
         if k in TYPED_LEAVES:
             return "%s()" % k, self.node("E_" + k.upper())
+        if k in TRAP_TEXT:
+            text, val, pol = TRAP_TEXT[k]
+            return text, self.node("E_TRAP", val, -1 if pol is None else pol)
         if k in ("and", "or", "elvis", "comma"):
             at, an = self.expr(t[1]); bt, bn = self.expr(t[2])
             op = {"and": "&&", "or": "||", "elvis": "?:", "comma": ","}[k]
@@ -590,13 +678,18 @@ class Emit:
     def function(self, name):
         tab = ""
         if self.uses_tab:
-            tab = "void *tab[%d] = {%s}; " % (self.nlabels, ", ".join("&&L%d" % j for j in range(1, self.nlabels + 1)))
+            tab = "void *tab[%d] = {%s}; " % (self.nlabels, ", ".join("&&" + nm for nm in self.names))
         return "void %s(void) { %s%s }" % (name, tab, self.text)
 
 
 def canon(t):
     """whitespace-free canonical C text of a tree (for signatures)"""
-    s = Emit(t).text
+    nms = label_names(t)
+    named = any(nms)
+    s = Emit(name_labels(t, None) if named else t).text
+    if named:
+        s += "|labels:" + name_relations(nms)
+    s = s.replace("gsink = *gnull", "gsink=*gnull").replace("(int)sizeof", "sizeof")
     s = s.replace("int i", "int_i").replace("goto ", "goto_").replace("case ", "case_").replace("else ", "else_")
     return "".join(s.split())
 
@@ -647,6 +740,10 @@ def shrink_candidates(t):
                 continue
             repl = [("C2",) if s[0] == "C2" else ("C",)]
             repl += [c for c in s[1:] if isinstance(c, tuple) and c and is_expr(c)]
+            if s[0] in TRAP_TEXT:       # normalise operands: any -> the pure global, a trapping one -> the dereference of its polarity
+                pol = TRAP_TEXT[s[0]][2]
+                if s[0] != "G": repl.append(("G",))
+                if pol is not None and s[0] != "Dp%d" % pol: repl.append(("Dp%d" % pol,))
         else:
             if s[0] == "T":
                 continue
